@@ -129,7 +129,7 @@ theorem message_roundtrip (p : Pkt) (hw : WfPkt p) (size : Nat) (wire : Bytes) (
       · exact (hw.ad rr h).1
       · simp only [List.mem_singleton] at h
         subst h
-        have hnm : NameOK ([] : Name) := ⟨(fun l hl => by cases hl), (by simp)⟩
+        have hnm : NameOK ([] : Name) := ⟨(fun l hl => by cases hl), (by simp), (by decide)⟩
         refine ⟨hnm, (by simp [optRR, T_OPT]), (by simp only [optRR]; exact hw.bufsize.2), ?_, ?_⟩
         · simp only [optRR, hv, Option.getD_some]
           have := hw.rcode
